@@ -125,10 +125,10 @@ type Machine struct {
 	// helpers that only build error values or use constructs outside the modelled subset.
 	Natives map[string]func(args []Value) []Value
 	Info    *types.Info
-	Pkg    *types.Package
-	Decls  map[*types.Func]*ast.FuncDecl
-	Steps  int
-	MaxOps int
+	Pkg     *types.Package
+	Decls   map[*types.Func]*ast.FuncDecl
+	Steps   int
+	MaxOps  int
 }
 
 type frame struct {
